@@ -229,6 +229,9 @@ int main(int argc, char** argv){
             case 2: return run_exec_omp_tsm<1,false>(c);
             case 4: return run_exec_omp_tsm<2,false>(c);
             case 6: return run_exec_omp_tsm<3,false>(c);
+            case 3: return run_exec_omp_tsm<1,true>(c);
+            case 5: return run_exec_omp_tsm<2,true>(c);
+            case 7: return run_exec_omp_tsm<3,true>(c);
             }
             return "?dim";
         }
